@@ -241,11 +241,22 @@ def starved(data, blocking_items, chunks, buffered):
         return False
     if buffered:
         return True
-    if any(it[0] == "err" for it in blocking_items):
-        return True
     batches = []
     cur = 0
+    pos_after = 0
+    err_need = None
     for it in blocking_items:
+        if it[0] == "err":
+            # a run that ends in an error: the call that reports it needs the offending header delivered (conservatively: the 16 bytes
+            # of look-ahead at its position); an end-of-input error needs everything.  Position: from the token, else where the
+            # previous tag ended (HierarchyError carries none)
+            f = it[1].split(":")
+            if f[1] == "eof":
+                err_need = n
+            else:
+                p = int(f[2]) if f[1] in ("cid", "cdata", "over", "size", "id", "data") and len(f) > 2 and f[2].isdigit() else pos_after
+                err_need = min(n, p + 16)
+            break
         if it[0] != "item":
             break
         cur += 1
@@ -254,9 +265,13 @@ def starved(data, blocking_items, chunks, buffered):
             h = E.header_at(data, off)
             if h is None:
                 return True
-            batches.append((cur, off + h[1] + h[3] + (0 if tag[0] == "s" else (h[2] or 0)), False))
+            pos_after = off + h[1] + h[3] + (0 if tag[0] == "s" else (h[2] or 0))
+            batches.append((cur, pos_after, False))
             cur = 0
-    batches.append((cur, n, True))
+    if err_need is not None:
+        batches.append((cur + 1, err_need, err_need >= n))
+    else:
+        batches.append((cur, n, True))
     call, queue, bi = 0, 0, 0
     while call < 4 * n + 100:
         dk = delivered(call)
